@@ -548,6 +548,13 @@ func (p *Program) FromWire(f *File, t *Type, w tbin.Value) (*Val, bool) {
 			for _, fd := range d.Fields {
 				if fd.ID == wf.ID {
 					if fv, ok := p.FromWire(g, fd.Type, wf.V); ok {
+						if fv.Nil && (d.Kind == "union" || fd.Req != Required) {
+							// a container written with another element type reads as a nil
+							// container: an optional field / union member is then not set
+							// (an earlier occurrence of the field is overwritten all the same)
+							delete(out.Fields, fd.Name)
+							continue
+						}
 						out.Fields[fd.Name] = fv
 					}
 				}
@@ -565,10 +572,8 @@ func (p *Program) FromWire(f *File, t *Type, w tbin.Value) (*Val, bool) {
 	case List, Set:
 		out := &Val{Items: []Val{}}
 		if w.VT != p.WireType(g, rt.Elem) {
-			if len(w.Items) == 0 {
-				return out, true
-			}
-			return nil, false
+			// gen/list.go, gen/set.go: the elements are skipped and the container reads as nil
+			return &Val{Items: []Val{}, Nil: true}, true
 		}
 		for _, it := range w.Items {
 			ev, ok := p.FromWire(g, rt.Elem, it)
@@ -581,10 +586,7 @@ func (p *Program) FromWire(f *File, t *Type, w tbin.Value) (*Val, bool) {
 	case Map:
 		out := &Val{Items: []Val{}}
 		if w.KT != p.WireType(g, rt.Key) || w.VT != p.WireType(g, rt.Elem) {
-			if len(w.Items) == 0 {
-				return out, true
-			}
-			return nil, false
+			return &Val{Items: []Val{}, Nil: true}, true
 		}
 		for i := 0; i+1 < len(w.Items); i += 2 {
 			k, ok1 := p.FromWire(g, rt.Key, w.Items[i])
@@ -597,6 +599,32 @@ func (p *Program) FromWire(f *File, t *Type, w tbin.Value) (*Val, bool) {
 		return out, true
 	}
 	return nil, false
+}
+
+// StripNil removes the fields of v (recursively) that hold a nil container: on
+// the Go side a nil slice or map in a field is observed as an unset field.
+func (p *Program) StripNil(v *Val) *Val {
+	if v == nil {
+		return nil
+	}
+	out := *v
+	if v.Fields != nil {
+		out.Fields = map[string]*Val{}
+		for k, fv := range v.Fields {
+			if fv != nil && fv.Nil {
+				continue
+			}
+			out.Fields[k] = p.StripNil(fv)
+		}
+	}
+	if v.Items != nil {
+		out.Items = make([]Val, len(v.Items))
+		for i := range v.Items {
+			out.Items[i] = *p.StripNil(&v.Items[i])
+			out.Items[i].Nil = false
+		}
+	}
+	return &out
 }
 
 // FillDefaults returns v with declared defaults filled into unset fields,
